@@ -402,8 +402,16 @@ sort_function_table (program_t * prog)
 
   if (prog->type_start)
     {
+      /* type_start runs parallel to function_table and has to follow the same
+       * permutation.  It cannot be done in place: entry temp[i] may already have
+       * been overwritten when entry i is assigned. */
+      unsigned short *ts =
+        CALLOCATE (num, unsigned short, TAG_TEMPORARY, "sort_function_table");
+
       for (i = 0; i < num; i++)
-        prog->type_start[i] = prog->type_start[temp[i]];
+        ts[i] = prog->type_start[temp[i]];
+      memcpy (prog->type_start, ts, num * sizeof (unsigned short));
+      FREE (ts);
     }
 
   FREE (sorttmp);
